@@ -524,6 +524,16 @@ func (e *Engine) stableContentKeys() map[string]bool {
 			}
 		}
 	}
+	for _, sk := range e.cs.StableKeys {
+		x := &Exec{e: e}
+		ctx := &EvalCtx{x: x, pkg: sk[0]}
+		func() {
+			defer func() { recover() }()
+			for _, kk := range ctx.readKeys(sk[1]) {
+				out[kk[0]] = true
+			}
+		}()
+	}
 	e.stableContent = out
 	return out
 }
@@ -570,6 +580,12 @@ func (e *Engine) freshVal(p *Path, t types.Type, hint string) Val {
 		ts = append(ts, e.fresh(hint+l.Path, l.Sort))
 	}
 	v := e.unflatten(t, &ts)
+	if v.K == KSlice {
+		// incoming slices are modelled as starting at offset 0 of their backing array
+		// (assumption: no partially overlapping slice views are passed in)
+		v.Off = "0"
+		e.note("incoming slices start at offset 0 of their backing array (no partially overlapping views)")
+	}
 	e.assumeRange(p, v)
 	return v
 }
